@@ -40,3 +40,27 @@ pub use self::types::QoS;
 // http://www.iana.org/assignments/service-names-port-numbers/service-names-port-numbers.xhtml
 pub const TCP_PORT: u16 = 1883;
 pub const TLS_PORT: u16 = 8883;
+
+/// Verification hooks (only with `--cfg ntex_mqtt_verif`); not part of the public API.
+#[cfg(ntex_mqtt_verif)]
+#[doc(hidden)]
+pub mod verif {
+    use ntex_codec::Decoder;
+
+    /// Run the protocol-version sniffing decoder used by the combined server.
+    /// `Ok(Some(3 | 5))`, `Ok(None)` = need more data.
+    pub fn sniff(src: &mut ntex_bytes::BytesMut) -> Result<Option<u8>, crate::error::DecodeError> {
+        crate::version::VersionCodec.decode(src).map(|v| {
+            v.map(|v| match v {
+                crate::version::ProtocolVersion::MQTT3 => 3,
+                crate::version::ProtocolVersion::MQTT5 => 5,
+            })
+        })
+    }
+
+    /// The topic-filter validator the dispatchers apply to SUBSCRIBE / UNSUBSCRIBE.
+    pub fn topic_is_valid(topic: &str) -> bool {
+        crate::topic::is_valid(topic)
+    }
+}
+
